@@ -34,7 +34,11 @@ def compare(trace, r, rtol=1e-8, what=("t", "comp", "rows", "link", "linkrows", 
         out.append(V("time-grid", f"grid differs: impl n={len(m.t)} [{m.t[0]!r}..{m.t[-1]!r}] vs ref n={T} [{trace.t[0]!r}..{trace.t[-1]!r}]", None))
         return out
     scale = max(1.0, max((max(abs(x) for x in v if x == x and abs(x) != float("inf")) if any(x == x for x in v) else 0.0) for v in trace.comp.values()))
-    atol = 1e-12 * scale
+    # the two time grids are accepted as equal up to 1e-9; a displacement of the grid by dgrid moves every interpolated input by at most
+    # dgrid/dt of its range, so that share of the run's scale is not a disagreement about behaviour (a grid point one ulp away from a data
+    # knot picks up ~1e-11 of the neighbouring value)
+    dgrid = float(np.max(np.abs(np.asarray(m.t) - np.asarray(trace.t)))) if T else 0.0
+    atol = (1e-12 + 4 * dgrid / float(m.dt)) * scale
     nflow = T if last_flow else T - 1
     for pop in m.pops:
         if "comp" in what:
